@@ -570,7 +570,9 @@ def _nunique_df_chunk(df, *by, **kwargs):
     except Exception:
         pass
 
-    g = _groupby_raise_unaligned(df, by=by, group_keys=True)
+    dropna = kwargs.get("dropna")
+    dropna = {} if dropna is None else {"dropna": dropna}
+    g = _groupby_raise_unaligned(df, by=by, group_keys=True, **dropna)
     if len(df) > 0:
         grouped = g[name].unique().explode().to_frame()
     else:
@@ -582,9 +584,9 @@ def _nunique_df_chunk(df, *by, **kwargs):
     return grouped
 
 
-def _nunique_df_combine(df, levels, sort=False):
+def _nunique_df_combine(df, levels, sort=False, dropna=True):
     result = (
-        df.groupby(level=levels, sort=sort, observed=True)[df.columns[0]]
+        df.groupby(level=levels, sort=sort, observed=True, dropna=dropna)[df.columns[0]]
         .unique()
         .explode()
         .to_frame()
